@@ -299,6 +299,10 @@ def _call_step(step, objs, results, findings, where, type_only, iso=None):
                     # reduced "curve" has a repeated x and is not a valid input for anything downstream; a caller
                     # would stop here, and so does the program (dependent steps are skipped in every world)
                     return ('exc', ('exc', 'InvalidCurve'))
+                if sub.ndim == 2 and len(sub) > 400:
+                    # the reduction kept (almost) every point of a long trace; the detectors downstream are quadratic
+                    # or worse, so the program stops here (in every world alike)
+                    return ('exc', ('exc', 'ReductionTooLong'))
                 return ('ok', sub)
             if fn == 'caller.soak':
                 return _soak(args, findings, where, type_only)
